@@ -204,7 +204,7 @@ Record snap := mkSnap { version : N; cached : option (list (key * value)) }.   (
    the error before UpdateSnapshotCache: a failed call caches nothing, not even what it did read. *)
 Inductive cop := CGet (k : key) | CBatchGet (ks : list key) | CSetTS (ts : N)
                | CGetErr (k : key) | CBatchErr (ks got : list key).
-Inductive cres := RGet (o : option value) | RBatch (l : list (key * option value)) | RUnit | RErr.
+Inductive cres := RGet (o : option value) | RBatch (l : list (key * option value)) | RUnit | RErr | RRefused.
 
 Definition norm (o : option value) : option value := match o with Some [] => None | x => x end.
 Definition val_of (o : option value) : value := match o with Some v => v | None => [] end.
@@ -222,25 +222,34 @@ Definition cache_update (s : snap) (kvs : list (key * value)) : snap :=
 
 Section Cache.
   Variable rd : N -> key -> option value.      (* what the uncached read path returns *)
+  Variable sp : N.                             (* the transaction safe point cached by the store (CheckVisibility) *)
 
-  Definition c_get (s : snap) (k : key) : option value * snap :=
+  (* Get: a cache hit is served at once; otherwise the value is fetched, THEN the visibility check runs
+     and only a read that passes it is cached — a read refused by the safe point leaves nothing behind *)
+  Definition c_get (s : snap) (k : key) : cres * snap :=
     match cache_lookup s k with
-    | Some v => (opt_of v, s)
-    | None => let o := norm (rd (version s) k) in (o, cache_update s [(k, val_of o)])
+    | Some v => (RGet (opt_of v), s)
+    | None =>
+        if version s <? sp then (RRefused, s)
+        else let o := norm (rd (version s) k) in (RGet o, cache_update s [(k, val_of o)])
     end.
 
-  Definition c_batch (s : snap) (ks : list key) : list (key * option value) * snap :=
+  (* BatchGet: if every key is cached the call returns before the check; otherwise fetch, check, cache *)
+  Definition c_batch (s : snap) (ks : list key) : cres * snap :=
     let miss := filter (fun k => match cache_lookup s k with Some _ => false | None => true end) ks in
     let fetched := map (fun k => (k, val_of (norm (rd (version s) k)))) miss in
     let ans := map (fun k => (k, match cache_lookup s k with
                                  | Some v => opt_of v
                                  | None => norm (rd (version s) k) end)) ks in
-    (ans, match miss with [] => s | _ => cache_update s fetched end).
+    match miss with
+    | [] => (RBatch ans, s)
+    | _ => if version s <? sp then (RRefused, s) else (RBatch ans, cache_update s fetched)
+    end.
 
   Definition c_step (s : snap) (o : cop) : cres * snap :=
     match o with
-    | CGet k => let '(r, s') := c_get s k in (RGet r, s')
-    | CBatchGet ks => let '(r, s') := c_batch s ks in (RBatch r, s')
+    | CGet k => c_get s k
+    | CBatchGet ks => c_batch s ks
     | CSetTS ts => (RUnit, mkSnap ts None)
     | CGetErr _ => (RErr, s)
     | CBatchErr _ _ => (RErr, s)
@@ -252,8 +261,12 @@ Section Cache.
   (* the same program on a snapshot without a cache *)
   Definition u_step (ver : N) (o : cop) : cres * N :=
     match o with
-    | CGet k => (RGet (norm (rd ver k)), ver)
-    | CBatchGet ks => (RBatch (map (fun k => (k, norm (rd ver k))) ks), ver)
+    | CGet k => (if ver <? sp then RRefused else RGet (norm (rd ver k)), ver)
+    | CBatchGet ks =>
+        (match ks with
+         | [] => RBatch []
+         | _ => if ver <? sp then RRefused else RBatch (map (fun k => (k, norm (rd ver k))) ks)
+         end, ver)
     | CSetTS ts => (RUnit, ts)
     | CGetErr _ => (RErr, ver)
     | CBatchErr _ _ => (RErr, ver)
